@@ -25,6 +25,10 @@ def _roundtrips(repo, seed, n_seeds=40):
     for i in range(n_seeds):
         for ip, tp in ((10 ** 13, 10 ** 14), (10 ** 21, 10 ** 14), (10 ** 20, 10 ** 20), (3 * 10 ** 15 + 7, 10 ** 14)):
             lines.append(f'roundtrip.run {seed * 1000 + i} 60 {ip} {tp}')
+        # a configuration whose positive impact factor EXCEEDS the negative one (the code must cap it): round trips that flip the
+        # open-interest imbalance would farm the impact pool otherwise
+        lines.append(f'roundtrip.run {seed * 1000 + i} 60 {10 ** 13} {10 ** 14} 30000000000000 20000000000000')
+        lines.append(f'roundtrip.run {seed * 1000 + i} 60 {10 ** 13} {10 ** 14} 200000000000000 10000000000000')
     outs = R.call_native(repo, lines)
     trials = 0
     for l, o in zip(lines, outs):
@@ -55,8 +59,15 @@ def replay(ob, repo, seed):
 
 
 def extra(res, repo, tier, seed):
+    if tier != 'thorough':
+        # quick tier: a small bounded native supplement (the end-to-end statement, which the contracts cover only in part)
+        trials, bad = _roundtrips(repo, seed, 6)
+        res.bounded.append(dict(id='C10.native.roundtrip', bound='36 seeded market states x up to 60 fresh positions each, four price scales and two configurations with positive impact factor > negative impact factor, TestMarket<u128,20>', status='bounded-failed' if bad else 'bounded-ok', checks=trials, time_s=None))
+        if bad:
+            res.obligations.append(dict(id='C10.native.roundtrip', engine='native-replay', status='failed', bounded=True, detail=bad['violated']))
+        return
     if tier == 'thorough':
         trials, bad = _roundtrips(repo, seed, 120)
-        res.bounded.append(dict(id='C10.native.roundtrip', bound='480 seeded market states x up to 60 fresh positions each (random side, collateral token, size, leverage), four price scales, TestMarket<u128,20> default configuration', status='bounded-failed' if bad else 'bounded-ok', checks=trials, time_s=None))
+        res.bounded.append(dict(id='C10.native.roundtrip', bound='720 seeded market states x up to 60 fresh positions each (random side, collateral token, size, leverage), four price scales on the default configuration and two configurations with positive impact factor > negative impact factor, TestMarket<u128,20>', status='bounded-failed' if bad else 'bounded-ok', checks=trials, time_s=None))
         if bad:
             res.obligations.append(dict(id='C10.native.roundtrip', engine='native-replay', status='failed', bounded=True, detail=bad['violated']))
